@@ -53,6 +53,10 @@ def tasks(tier, seed):
     for k0 in (0, 3, 8):
         for ops in (("nbits8", "uint_lit1"), ("bytes1", "nbits8"), ("uint_lit1", "bit", "bytes1"), ("nbits3", "nbits8")):
             out.append({"id": "writer-block %s@%d" % ("+".join(ops), k0), "harness": "wblock", "args": (k0, ops)})
+    for n in (2, 5, 9, 12):
+        for back in (1, 3, n):
+            if back <= n:
+                out.append({"id": "seek-inside-block n=%d back=%d" % (n, back), "harness": "blockseek", "args": (n, back)})
     for k in (0, 1, 3, 8):
         out.append({"id": "out-of-range nbits(%d)" % k, "harness": "oor_nbits", "args": (k,)})
     out.append({"id": "out-of-range uint/bytes/bitarray", "harness": "oor_misc", "args": ()})
@@ -399,6 +403,58 @@ def build(task):
             return "err=%r" % (err_real,)
 
         return hwb
+
+    if hname == "blockseek":
+        n, back = a
+
+        def hbs(ctx):
+            # writer and reader: begin a block of symbolic length, move n bits forward, seek `back` bits backwards, move on
+            L = ctx.sym_int("L", 0, 24, default=16)
+            k0 = ctx.concretize(ctx.sym_int("k0", 0, 2)) * 3
+            data = [0xFF] * 6
+            r = bio.BitstreamReader(SymFile(data))
+            w = bio.BitstreamWriter(SymFile())
+            r.read_nbits(k0)
+            w.write_nbits(k0, (1 << k0) - 1)
+            r.bounded_block_begin(L)
+            w.bounded_block_begin(L)
+            for _ in range(n):
+                r.read_bit()
+                w.write_bit(1)
+            ctx.prove_eq(w.bits_remaining, L - n, "writer-bits_remaining-before-seek")
+            ctx.prove_eq(r.bits_remaining, L - n, "reader-bits_remaining-before-seek")
+            target = bio.from_bit_offset(k0 + n - back)
+            rok = wok = True
+            try:
+                r.seek(*target)
+            except Exception:
+                rok = False
+            try:
+                w.seek(*target)
+            except Exception:
+                wok = False
+            ctx.prove(rok == wok, "seek-accepted-by-both-or-neither", [rok, wok])
+            if not (rok and wok):
+                return "seek refused"
+            ctx.prove(tuple(map(cv_of, w.tell())) == tuple(map(cv_of, r.tell())) == tuple(target), "tell-after-seek", [list(map(cv_of, w.tell())), list(map(cv_of, r.tell())), list(target)])
+            ctx.prove_eq(w.bits_remaining, r.bits_remaining, "writer-and-reader-agree-on-bits_remaining-after-seek")
+            # while the block was not yet exhausted before the seek, the remaining count is simply restored
+            inside = (L - n) > 0
+            if is_sym(inside):
+                inside = bool(inside)
+            if inside:
+                ctx.prove_eq(w.bits_remaining, L - n + back, "bits_remaining-restored-by-backward-seek")
+            for i in range(4):
+                vr = r.read_bit()
+                try:
+                    w.write_bit(1)
+                except ValueError:
+                    ctx.prove(False, "writer-rejects-a-1-bit")
+                ctx.prove_eq(w.bits_remaining, r.bits_remaining, "agree-after-seek-step%d" % i)
+                ctx.prove_eq(vr, 1, "reads-ones")
+            return "ok"
+
+        return hbs
 
     if hname == "oor_nbits":
         (k,) = a
